@@ -2,6 +2,15 @@
 //
 // The Digester is a functional stub: the digest of a value is an arbitrary 64-bit number, constrained only to be a
 // function of the value (equal values => equal digests); collisions are allowed. Values come in two "types" (tag).
+#if defined(STORAGE) && STORAGE == 4
+// a Storage of a foreign namespace whose == and < the APPLICATION declares at global scope (not found by ADL, only by ordinary lookup), before the
+// library headers are included -- "a Storage that supports both == and <" all the same
+#include <cstdint>
+struct Val;
+namespace thirdparty { struct NSto { uint32_t v; uint32_t tag; NSto() : v(0), tag(0) {} NSto(const ::Val & x); }; }
+bool operator==(const thirdparty::NSto & a, const thirdparty::NSto & b);
+bool operator<(const thirdparty::NSto & a, const thirdparty::NSto & b);
+#endif
 #include "common.h"
 
 #ifndef STORAGE
@@ -58,7 +67,12 @@ struct TSto {
 	uint32_t type() const { return tag; }
 	bool has_value() const { return true; }
 };
-#if STORAGE == 3
+#if STORAGE == 4
+inline thirdparty::NSto::NSto(const ::Val & x) : v(x.v), tag(x.tag) {}
+bool operator==(const thirdparty::NSto & a, const thirdparty::NSto & b) { return a.tag == b.tag && a.v == b.v; }
+bool operator<(const thirdparty::NSto & a, const thirdparty::NSto & b) { return a.tag < b.tag || (a.tag == b.tag && a.v < b.v); }
+using Id = eventpp::AnyId<Dig, thirdparty::NSto>;
+#elif STORAGE == 3
 using Id = eventpp::AnyId<Dig, TSto>;
 #define COMPARABLE_STORAGE 0
 #elif STORAGE == 2
